@@ -129,6 +129,27 @@ void goe(Rng& rng)
         }
 }
 
+// conversion between scaled nests / to built-in integers: static_cast<B>(a) is the hand-written code
+// `B(rep * radix^(eA-eB))` resp. `B(rep / radix^(eB-eA))` (division truncating toward zero), every value of 8-bit
+// representations: shifts at and beyond the digit count of the source included (Q0.7 -> integer: -128 / 128 = -1)
+template<class A, class B>
+void gocv(Rng& rng)
+{
+    using TA = inner_t<A>;
+    std::vector<TA> lv;
+    if constexpr (sizeof(TA) <= 2)
+        lv = all_vals<TA>();
+    else
+        lv = vals<TA>(rng, 40 * scale_from_env(), sizeof(TA) > 4 ? 13 : 6);
+    for (TA l : lv) {
+        A a = mk<A>(l);
+        printf("C12 cvte %s %s ", tn<A>().c_str(), tn<B>().c_str());
+        prv(l);
+        fputs(" => ", stdout);
+        VH_RUN(static_cast<B>(a), print_num)
+    }
+}
+
 // binary operators and comparisons between scaled nests with different exponents: `+ -` and the comparisons
 // align the coarser operand with scale<k> of its representation (a wrapper for sc(ov)/sc(rd)/sc(ov(rd))),
 // `* / %` act on the representations; the oracle is the same expression on scaled_integer over the bare integers
